@@ -360,3 +360,62 @@ def rule_morgan_layers(ck, repo, R):
     ck.decide(len(ret) == 1 and src(ret[0].value).replace(' ', '') in ('out[-(max_radius-min_radius+1):]', 'out[min_radius-1:]', 'out[min_radius-1:max_radius]'), R, 'slice',
               src(ret[0].value) if ret else None, f'returned slice `{src(ret[0].value) if ret else None}` does not select radii min_radius..max_radius', file=f.file)
     ck.floor(R, 4)
+
+
+def rule_chain_length_window(ck, repo, R):
+    ck.rule(R, 'LinearFingerprint._chains grows paths breadth first: a grown path of `size` atoms is queued for further growth iff size < max_radius and '
+               'collected iff size >= min_radius (so the result holds every simple path with min_radius..max_radius atoms); both guards are evaluated over a grid '
+               'of (size, min_radius, max_radius), whatever their spelling')
+    from .r_query import _ev, _Unknown
+    import copy as _copy
+    f = repo.func('chython.algorithms.fingerprints.linear:LinearFingerprint._chains')
+    ck.require(f is not None, '_chains not found')
+    loops = [l for l in ast.walk(f.node) if isinstance(l, ast.While)]
+    ck.require(len(loops) == 1, '_chains: growth loop not found')
+    lp = loops[0]
+    size_names = {a.targets[0].id for a in ast.walk(lp) if isinstance(a, ast.Assign) and isinstance(a.targets[0], ast.Name) and isinstance(a.value, ast.Call) and src(a.value.func) == 'len'}
+
+    class S(ast.NodeTransformer):
+        def visit_Call(self, node):
+            if src(node.func) == 'len':
+                return ast.Name(id='SIZE', ctx=ast.Load())
+            return self.generic_visit(node)
+
+        def visit_Name(self, node):
+            return ast.Name(id='SIZE', ctx=ast.Load()) if node.id in size_names else node
+    parents = {}
+    for p_ in ast.walk(lp):
+        for ch in ast.iter_child_nodes(p_):
+            parents[ch] = p_
+
+    def guard_of(pred):
+        calls = [c for c in ast.walk(lp) if isinstance(c, ast.Call) and pred(c)]
+        ck.require(len(calls) == 1, '_chains: growth / collection statement not found')
+        tests = []
+        p_ = parents.get(calls[0])
+        while p_ is not None and p_ is not lp:
+            if isinstance(p_, ast.If) and any(calls[0] in ast.walk(s_) for s_ in p_.body):
+                t = p_.test
+                if any(isinstance(x, ast.Name) and x.id in ('min_radius', 'max_radius') for x in ast.walk(t)):
+                    tests.append(S().visit(_copy.deepcopy(t)))
+            p_ = parents.get(p_)
+        return tests, calls[0]
+    for what, pred, expect in (('grow', lambda c: src(c.func) == 'queue.extend', lambda s, lo, hi: s < hi),
+                               ('collect', lambda c: src(c.func) == 'arr.add', lambda s, lo, hi: s >= lo)):
+        tests, call = guard_of(pred)
+        ck.require(tests, f'_chains: no radius guard around the {what} statement')
+        bad = None
+        for lo in range(1, 5):
+            for hi in range(lo, 6):
+                for s_ in range(1, 7):
+                    try:
+                        got = all(_ev(t, {'SIZE': s_, 'min_radius': lo, 'max_radius': hi}) for t in tests)
+                    except _Unknown as e:
+                        raise AnalysisError(f'_chains: guard of the {what} statement not understood ({e})')
+                    if got != expect(s_, lo, hi) and bad is None:
+                        bad = (s_, lo, hi, got)
+        ck.decide(bad is None, R, f'{what}-guard', ' and '.join(src(t) for t in tests),
+                  (f'_chains: a grown path of {bad[0]} atoms with min_radius={bad[1]}, max_radius={bad[2]} is {"" if bad[3] else "not "}{"queued for growth" if what == "grow" else "collected"} '
+                   f'under `{" and ".join(src(t) for t in tests)}`; paths with exactly min_radius / fewer than max_radius atoms are mishandled') if bad else None,
+                  file=f.file, line=call.lineno, func=f.qualname, construct=' and '.join(src(t) for t in tests))
+    ck.floor(R, 2)
